@@ -1,14 +1,25 @@
 """C09 - Deb822 mappings stay ordered, case-insensitive and case-preserving in any history.
 
 Three kinds of case, all plain JSON, all executed by step-by-step interpreters that compare the
-real object with a list model after *every* step:
+real object with a list model (by default after *every* step):
 
 ``{"kind": "deb822", "init": {"cls": "Deb822"|"Deb822Dict", "how": HOW, "items": [[key, value]..]},
-   "ops": [[op, args..], ..]}``
+   "watch": "all"|"keys"|"blind", "ops": [[op, args..], ..]}``
     HOW: empty | dict | pairs | mapping | text | lines | bytes | file | iterpara | backed
     A *key operand* is a literal key (str), an index ``i`` (the spelling stored for the
-    ``i % n``-th live key) or ``[i, "l"|"u"|"s"]`` (that spelling lower-/upper-/swap-cased); with no
-    live key an index operand makes the operation inapplicable and it is skipped.
+    ``i % n``-th live key), ``[i, "l"|"u"|"s"]`` (that spelling lower-/upper-/swap-cased) or
+    ``["x", i, ""|"l"|"u"|"s"]`` (the spelling the ``i % g``-th most recently deleted and still
+    absent name had when it was deleted, possibly re-cased); with no live / no deleted key such an
+    operand makes the operation inapplicable and it is skipped.
+    WATCH is the *observation policy* of the history (what the harness looks at between the steps;
+    looking is not neutral for an object that decodes, caches or materialises on access):
+      all   - (default) after every step keys, order, len, membership, every value (by the stored
+              spelling and case variants) and dump() are compared with the model;
+      keys  - after every step only list(d), len(d) and membership are compared: no value is read;
+      blind - nothing is looked at between the steps.
+    Under every policy the operations of the history check their own result (``get``/``getd``/
+    ``setdefault``/``pop``/``popd`` the value or the KeyError, ``in`` the membership, ``obs`` a full
+    observation) and the history ends with one full observation.
     ops: set K v | del K | get K | in K | getd K | pop K | popd K | popitem | setdefault K v |
          update HOW [[K, v]..] | first K | last K | before K R | after K R |
          sort [MODE [ranks]] | copy | reparse FORM | clear | obs
@@ -41,7 +52,12 @@ RULE = ("cases are operation histories ([op, args..] lists; key/node operands ar
         "a fixed index-operand alphabet from a 3-element start (llist: <=4 / <=5); generated: "
         "Hypothesis histories of up to 30 (quick) / 40 (thorough) steps over a 24-spelling / 12-name "
         "key alphabet; thorough adds a RuleBasedStateMachine driving the same interpreter. The model "
-        "is compared after every step. Non-trivial (deb822) = the history contains at least one "
+        "is compared after every step (observation policy 'all'); separate enumerated and generated "
+        "sources run deb822 histories under the policies 'keys' (order/len/membership only between "
+        "the steps, no value read) and 'blind' (nothing read between the steps), with an op mix rich in "
+        "lookups (d[k], get, in, setdefault, pop with/without default, del, order_first) of keys that "
+        "were just deleted - in particular deleted without their value ever having been read since "
+        "the assignment / parse; every history ends with a full observation. Non-trivial (deb822) = the history contains at least one "
         "successful re-order, one successful deletion and one access to a live key through a "
         "spelling other than the stored one; (oset/llist) = at least one successful removal and one "
         "successful re-order/insertion that is not a plain append; distinct = distinct canonical JSON")
@@ -52,15 +68,28 @@ ASSUMPTIONS = [
     "which pair popitem() removes is not specified: any pair of the model is accepted",
     "re-ordering an absent key relative to itself may raise KeyError or ValueError (the statement "
     "promises both)",
+    "observation policies: a history may be run with the harness reading everything after every step "
+    "('all'), only keys/len/membership ('keys') or nothing ('blind') between the steps; the verdicts are "
+    "the same model comparisons, made by the history's own operations and by one full observation at the "
+    "end, so a sparse policy can only see fewer states, never demand more",
+    "the labels lookup:*never-read / del:never-read describe what the harness itself has read (a value is "
+    "'never read' when no lookup, view or dump was made by the harness since its last assignment or since "
+    "the object was created); they are coverage labels and take no part in a verdict",
     "Hypothesis 6.168 generators and stateful runner; sha1 for distinctness",
 ]
 EXHAUSTIVE = {
     "quick": "every history of 1..3 steps over the index-operand op alphabets, each from a 3-element "
              "start: deb822 (33 ops; paragraph parsed from lines; from a dict: 1..2 steps), "
-             "OrderedSet (29 ops, case-insensitive and plain items), and of 1..4 steps for LinkedList (13 ops)",
+             "OrderedSet (29 ops, case-insensitive and plain items), and of 1..4 steps for LinkedList (13 ops); "
+             "sparse observation: every history of 1..2 steps over a 19-op delete/lookup alphabet from each of "
+             "the 14 start states under the policies keys and blind, and of 3 steps from 5 start states "
+             "(empty, dict, parsed text, parsed by iter_paragraphs, Deb822Dict from pairs)",
     "thorough": "every history of 1..4 steps over the index-operand op alphabets, each from a 3-element "
                 "start: deb822 (33 ops; paragraph parsed from lines; from a dict: 1..3 steps), "
-                "OrderedSet (29 ops, case-insensitive and plain items), and of 1..5 steps for LinkedList (13 ops)",
+                "OrderedSet (29 ops, case-insensitive and plain items), and of 1..5 steps for LinkedList (13 ops); "
+                "sparse observation: every history of 1..3 steps over a 19-op delete/lookup alphabet from each "
+                "of the 14 start states under the policies keys and blind, and of 4 steps from 5 start states "
+                "(empty, dict, parsed text, parsed by iter_paragraphs, Deb822Dict from pairs)",
 }
 BUDGET = {"quick": 400, "thorough": 2400}
 
@@ -146,7 +175,9 @@ SORT_KEYS = {
 # observation shared by the live object and the retained older objects
 
 
-def observe_mapping(d, model, fam, has_dump, full=False, ghost=None, turn=0):
+def observe_mapping(d, model, fam, has_dump, full=False, ghost=None, turn=0, values=True):
+    """Compare ``d`` with the model.  ``values=False`` is the keys-only observation: iteration, len
+    and membership, but no lookup, no view of the values and no dump."""
     def sig(what):
         return ("ghost-" + what + "@" + ghost) if ghost else (what + "@" + fam)
 
@@ -165,6 +196,10 @@ def observe_mapping(d, model, fam, has_dump, full=False, ghost=None, turn=0):
     modes = "lus" if full else "lus"[turn % 3]
     for k, v in pairs:
         for q in [k] + [variant(k, mo) for mo in modes]:
+            if not values:
+                if q not in d:
+                    raise Violation(sig("membership-differs"), "%r not in d; model %s" % (q, short(pairs)))
+                continue
             try:
                 gv = d[q]
             except KeyError:
@@ -182,7 +217,7 @@ def observe_mapping(d, model, fam, has_dump, full=False, ghost=None, turn=0):
         q = name.upper() if turn & 1 else name
         if q in d:
             raise Violation(sig("membership-differs"), "%r in d; model %s" % (q, short(pairs)))
-        if not full:
+        if not full or not values:
             continue
         if d.get(q, None) is not None:
             raise Violation(sig("membership-differs"), "d.get(%r) = %r; model %s" % (q, d.get(q), short(pairs)))
@@ -192,6 +227,11 @@ def observe_mapping(d, model, fam, has_dump, full=False, ghost=None, turn=0):
             pass
         else:
             raise Violation(sig("membership-differs"), "d[%r] = %r for an absent key; model %s" % (q, gv, short(pairs)))
+    if not values:
+        ks = list(d.keys())
+        if [plain(k) for k in ks] != exp:
+            raise Violation(sig("views-differ"), "keys() %s, model %s" % (short(ks), short(exp)))
+        return
     if has_dump:
         text = d.dump()
         if text != expected_dump(pairs):
@@ -231,10 +271,19 @@ class Deb822Session(object):
              "first": (1,), "last": (1,), "before": (2,), "after": (2,), "sort": (0, 1, 2),
              "copy": (0,), "reparse": (0, 1)}
 
-    def __init__(self, init):
-        self.labels = set()
+    WATCH = ("all", "keys", "blind")
+
+    def __init__(self, init, watch="all"):
+        self.watch = watch if watch in self.WATCH else "all"
+        self.labels = set(["watch:" + self.watch])
         self.m = ListModel(ci=True)
         self.ghosts = []          # [object, model clone, has_dump, family that retired it]
+        self.gone = []            # lower-cased names deleted and still absent, most recent first
+        # what the harness itself has looked at (coverage labels only, never part of the verdict):
+        # names whose value it has not asked for since the last assignment / since the object
+        # exists, and the absent names that were deleted in that condition
+        self.unread = set()
+        self.gone_unread = set()
         self.n_reorder = self.n_delete = self.n_variant = 0
         self.prev = ("init",)     # the last structural mutation
         self.deleted = {}         # lower-cased name -> spelling it had when it was deleted
@@ -243,6 +292,7 @@ class Deb822Session(object):
         self.maxlen = 0
         self.d = self.build(init if isinstance(init, dict) else {})
         self.has_dump = hasattr(self.d, "dump")
+        self.unread = set(s.lower() for s in self.m.keys())
         self.observe("init", full=True)
 
     # -- construction -----------------------------------------------------------------------
@@ -305,6 +355,10 @@ class Deb822Session(object):
             return self.m.pairs[x % n][0] if n else None
         if isinstance(x, list) and len(x) == 2 and is_index(x[0]) and isinstance(x[1], str):
             return variant(self.m.pairs[x[0] % n][0], x[1]) if n else None
+        if isinstance(x, list) and len(x) == 3 and x[0] == "x" and is_index(x[1]) and isinstance(x[2], str):
+            if not self.gone:
+                return None
+            return variant(self.deleted[self.gone[x[1] % len(self.gone)]], x[2])
         return None
 
     def touch(self, k):
@@ -332,16 +386,40 @@ class Deb822Session(object):
         except KeyError as e:
             raise Violation("keyerror-on-present-key@" + fam, "%s raised KeyError(%s); %s" % (what, e, self.ctx()))
 
+    def fresh_object(self):
+        self.unread = set(s.lower() for s in self.m.keys())
+        self.gone_unread.clear()
+
     def retire(self, fam):
         self.ghosts.append([self.d, self.m.clone(), self.has_dump, fam])
         del self.ghosts[:-MAX_GHOSTS]
 
-    def observe(self, fam, full=False):
-        observe_mapping(self.d, self.m, fam, self.has_dump, full=full, turn=self.step_no)
-        for obj, model, has_dump, why in self.ghosts:
-            observe_mapping(obj, model, fam, has_dump, full=full, ghost=why, turn=self.step_no)
+    def observe(self, fam, full=False, force=False):
+        """The observation between the steps, as far as the policy of this history allows it;
+        ``force`` is for the observations that belong to the history itself (op ``obs``, the end)."""
         if len(self.m) > self.maxlen:
             self.maxlen = len(self.m)
+        if self.watch == "blind" and not force:
+            return
+        values = force or self.watch == "all"
+        observe_mapping(self.d, self.m, fam, self.has_dump, full=full, turn=self.step_no, values=values)
+        for obj, model, has_dump, why in self.ghosts:
+            observe_mapping(obj, model, fam, has_dump, full=full, ghost=why, turn=self.step_no, values=values)
+        if values:
+            self.unread.clear()
+
+    def looked_up(self, opname, k, i):
+        """Coverage of the interplay between reading and deleting (labels only)."""
+        low = k.lower()
+        if i is not None:
+            if low in self.unread:
+                self.labels.add("lookup:live-never-read")
+            if opname != "in":
+                self.unread.discard(low)
+        elif low in self.gone_unread:
+            self.labels.add("lookup:deleted-never-read/" + opname)
+        elif low in self.gone:
+            self.labels.add("lookup:deleted/" + opname)
 
     # -- the interpreter --------------------------------------------------------------------
     def step(self, op):
@@ -355,10 +433,10 @@ class Deb822Session(object):
             self.labels.add("skipped:inapplicable")
             return
         self.applied += 1
-        self.observe(fam, full=(op[0] == "obs"))
+        self.observe(fam, full=(op[0] == "obs"), force=(op[0] == "obs"))
 
     def finish(self):
-        self.observe("finish", full=True)
+        self.observe("finish", full=True, force=True)
         if self.maxlen >= 5:
             self.labels.add("len>=5")
         if self.applied >= 10:
@@ -378,6 +456,9 @@ class Deb822Session(object):
         if self.prev[0] == "reorder":
             self.labels.add("seq:reorder>append")
         self.prev = ("append", low)
+        if low in self.gone:
+            self.gone.remove(low)
+        self.gone_unread.discard(low)
 
     def op_set(self, K, v):
         k = self.key(K)
@@ -385,6 +466,7 @@ class Deb822Session(object):
             return False
         i = self.touch(k)
         self.d[k] = v
+        self.unread.add(k.lower())
         if self.m.set(k, v):
             self.appended(k)
         elif self.m.pairs[i][0] != k:
@@ -395,13 +477,19 @@ class Deb822Session(object):
         if k is None or not valid_value(v):
             return False
         i = self.touch(k)
-        r = self.d.setdefault(k, v)
+        self.looked_up("setdefault", k, i)
+        try:
+            r = self.d.setdefault(k, v)
+        except KeyError as e:
+            raise Violation("keyerror-unexpected@write", "setdefault(%r, %r) raised KeyError(%s); %s" % (
+                k, v, e, self.ctx()))
         exp = v if i is None else self.m.pairs[i][1]
         if r != exp:
             raise Violation("value-differs@write", "setdefault(%r, %r) returned %r, expected %r; %s" % (
                 k, v, r, exp, self.ctx()))
         if i is None:
             self.m.set(k, v)
+            self.unread.add(k.lower())
             self.appended(k)
 
     def op_update(self, how, pairs):
@@ -429,15 +517,24 @@ class Deb822Session(object):
         self.labels.add("update:%d" % min(len(seq), 2))
         for k, v in seq:
             self.touch(k)
+            self.unread.add(k.lower())
             if self.m.set(k, v):
                 self.appended(k)
 
     # deletions
-    def removed(self, i, k):
+    def removed(self, i, k, read=False):
         n = len(self.m)
         pos = posclass(i, n)
         spelling = self.m.delete(i)[0]
-        self.deleted[k.lower()] = spelling
+        low = k.lower()
+        self.deleted[low] = spelling
+        if low in self.gone:
+            self.gone.remove(low)
+        self.gone.insert(0, low)
+        if low in self.unread and not read:
+            self.gone_unread.add(low)
+            self.labels.add("del:never-read")
+        self.unread.discard(low)
         self.n_delete += 1
         self.labels.add("del:" + pos)
         if self.prev[0] == "reorder" and self.prev[1] == k.lower():
@@ -453,6 +550,7 @@ class Deb822Session(object):
         def f():
             del self.d[k]
         if i is None:
+            self.looked_up("del", k, i)
             return self.must_raise_keyerror("delete", "del d[%r]" % k, f)
         self.must_succeed("delete", "del d[%r]" % k, f)
         self.removed(i, k)
@@ -463,8 +561,13 @@ class Deb822Session(object):
             return False
         i = self.touch(k)
         if i is None:
+            self.looked_up("popd" if default else "pop", k, i)
             if default:
-                r = self.d.pop(k, "dflt")
+                try:
+                    r = self.d.pop(k, "dflt")
+                except KeyError as e:
+                    raise Violation("keyerror-despite-default@delete", "pop(%r, 'dflt') raised KeyError(%s); %s" % (
+                        k, e, self.ctx()))
                 if r != "dflt":
                     raise Violation("value-differs@delete", "pop(%r, 'dflt') = %r on an absent key; %s" % (k, r, self.ctx()))
                 return None
@@ -473,7 +576,7 @@ class Deb822Session(object):
                               (lambda: self.d.pop(k, "dflt")) if default else (lambda: self.d.pop(k)))
         if r != self.m.pairs[i][1]:
             raise Violation("value-differs@delete", "pop(%r) = %r, model %r; %s" % (k, r, self.m.pairs[i][1], self.ctx()))
-        self.removed(i, k)
+        self.removed(i, k, read=True)
 
     def op_popd(self, K):
         return self.op_pop(K, default=True)
@@ -484,12 +587,17 @@ class Deb822Session(object):
         r = self.must_succeed("delete", "d.popitem()", self.d.popitem)
         if not (isinstance(r, tuple) and len(r) == 2 and [plain(r[0]), r[1]] in self.m.pairs):
             raise Violation("value-differs@delete", "popitem() = %r is not a pair of the model; %s" % (r, self.ctx()))
-        self.removed(self.m.find(r[0]), plain(r[0]))
+        self.removed(self.m.find(r[0]), plain(r[0]), read=True)
 
     def op_clear(self):
         self.d.clear()
         for s, _ in self.m.pairs:
-            self.deleted[s.lower()] = s
+            low = s.lower()
+            self.deleted[low] = s
+            if low in self.gone:
+                self.gone.remove(low)
+            self.gone.insert(0, low)
+        self.unread.clear()
         if len(self.m):
             self.n_delete += 1
             self.labels.add("del:clear")
@@ -502,6 +610,7 @@ class Deb822Session(object):
         if k is None:
             return False
         i = self.touch(k)
+        self.looked_up("get", k, i)
         if i is None:
             return self.must_raise_keyerror("read", "d[%r]" % k, lambda: self.d[k])
         r = self.must_succeed("read", "d[%r]" % k, lambda: self.d[k])
@@ -513,6 +622,7 @@ class Deb822Session(object):
         if k is None:
             return False
         i = self.touch(k)
+        self.looked_up("in", k, i)
         if (k in self.d) != (i is not None):
             raise Violation("membership-differs@read", "(%r in d) = %r; %s" % (k, k in self.d, self.ctx()))
 
@@ -521,6 +631,7 @@ class Deb822Session(object):
         if k is None:
             return False
         i = self.touch(k)
+        self.looked_up("getd", k, i)
         r = self.d.get(k, "dflt")
         exp = "dflt" if i is None else self.m.pairs[i][1]
         if r != exp:
@@ -553,6 +664,7 @@ class Deb822Session(object):
         name = "order_last" if last else "order_first"
         call = lambda: getattr(self.d, name)(k)   # noqa: E731
         if i is None:
+            self.looked_up("order", k, i)
             return self.must_raise_keyerror("reorder", "%s(%r)" % (name, k), call)
         self.must_succeed("reorder", "%s(%r)" % (name, k), call)
         before = self.m.keys()
@@ -644,6 +756,7 @@ class Deb822Session(object):
             raise Violation("copy-type@copy", "copy() of %s gave %s" % (type(self.d).__name__, type(new).__name__))
         self.retire("copy")
         self.d = new
+        self.fresh_object()
         self.labels.add("copy")
         self.prev = ("copy",)
 
@@ -671,6 +784,7 @@ class Deb822Session(object):
             new = Deb822(text)
         self.retire("reparse")
         self.d = new
+        self.fresh_object()
         self.labels.add("reparse")
         self.prev = ("reparse",)
 
@@ -1038,7 +1152,7 @@ class LListSession(object):
 def open_session(case):
     kind = case.get("kind") if isinstance(case, dict) else None
     if kind == "deb822":
-        return Deb822Session(case.get("init"))
+        return Deb822Session(case.get("init"), case.get("watch"))
     if kind == "oset":
         return OSetSession(case.get("ci"), case.get("init"))
     if kind == "llist":
@@ -1099,6 +1213,35 @@ def enum_deb822(maxlen):
             for n in range(1, maxlen + 1 if how == "lines" else maxlen):
                 for seq in itertools.product(alpha, repeat=n):
                     yield {"kind": "deb822", "init": init, "ops": list(seq)}
+    return gen
+
+
+# Sparse observation.  What matters here is what has been *read* before a deletion and what is
+# asked afterwards, so the alphabet is deletions, every kind of lookup of the name deleted last
+# (re-cased), and the assignments / reads that change the "was it read since it was assigned" state.
+SPARSE_STARTS_LONG = [("Deb822", "empty"), ("Deb822", "dict"), ("Deb822", "text"), ("Deb822", "iterpara"),
+                      ("Deb822Dict", "pairs")]
+
+
+def _sparse_alphabet():
+    gone = ["x", 0, "s"]
+    return [["del", 0], ["del", [1, "u"]], ["del", -1],
+            ["get", gone], ["getd", ["x", 0, ""]], ["in", gone], ["setdefault", ["x", 0, "u"], "6"],
+            ["popd", gone], ["pop", ["x", 0, "l"]], ["del", gone], ["first", gone],
+            ["set", gone, "5"], ["set", [0, "s"], "8"], ["set", "zz", "9"], ["get", [0, "l"]],
+            ["getd", -1], ["last", 0], ["copy"], ["sort"]]
+
+
+def enum_sparse(maxlen):
+    def gen():
+        alpha = _sparse_alphabet()
+        for cls, how in INIT_HOWS:
+            init = {"cls": cls, "how": how, "items": ENUM_INIT}
+            top = maxlen if (cls, how) in SPARSE_STARTS_LONG else maxlen - 1
+            for watch in ("blind", "keys"):
+                for n in range(1, top + 1):
+                    for seq in itertools.product(alpha, repeat=n):
+                        yield {"kind": "deb822", "init": init, "watch": watch, "ops": list(seq)}
     return gen
 
 
@@ -1232,6 +1375,54 @@ def gen_deb822(max_ops):
                      init_st, _sized(deb822_chunk, max_ops))
 
 
+# Histories for the sparse observation policies: the ordinary mix, plus operations on names that
+# were deleted before (operand ["x", i, case]) and motifs "assign or not, read or not, delete,
+# look up again" - the lookups are the only observations a blind history makes before its end.
+k_gone = st.sampled_from([["x", 0, ""], ["x", 0, "s"], ["x", 0, "u"], ["x", 0, "l"],
+                          ["x", 1, ""], ["x", 1, "s"], ["x", 2, "u"], ["x", 3, "l"]])
+k_gone0 = st.sampled_from([["x", 0, ""], ["x", 0, "s"], ["x", 0, "u"], ["x", 0, "l"]])
+
+
+def _lookup(k):
+    return st.one_of(st.tuples(st.sampled_from(["get", "getd", "in", "popd", "get", "getd", "popd", "pop", "del",
+                                                "first", "last"]), k),
+                     st.tuples(st.just("setdefault"), k, value))
+
+
+op_del_unread = st.tuples(st.sampled_from(["del", "del", "del", "pop", "popd"]), k_live)
+sparse_op = weighted(
+    (10, op_new), (5, op_assign), (12, op_del_unread), (14, _lookup(k_gone)), (3, _lookup(k_any)),
+    (2, st.tuples(st.just("set"), k_gone, value)), (3, st.tuples(st.sampled_from(["get", "getd", "in"]), k_live)),
+    (2, op_update), (3, op_move1), (4, op_move2_live), (2, sort_op), (1, st.just(("copy",))), (1, op_reparse),
+    (1, st.just(("popitem",))), (1, st.one_of(st.just(("clear",)), st.just(("obs",)))))
+sparse_motif = st.one_of(
+    # delete a key as it stands (parsed / initialised / assigned, read or not), look it up again
+    st.tuples(st.tuples(st.just("del"), k_live), _lookup(k_gone0)),
+    st.tuples(st.tuples(st.just("del"), k_live), _lookup(k_gone0), _lookup(k_gone0)),
+    # assign (new or existing key: index operands keep pointing at it), delete it, look it up
+    st.builds(lambda k, v, look: (("set", k, v), ("del", _swap_literal(k)), look), k_lit, value, _lookup(k_gone0)),
+    st.builds(lambda i, v, look: (("set", i, v), ("del", i), look), st.sampled_from(_INDEXES), value, _lookup(k_gone0)),
+    # read it, re-assign it, delete it, look it up
+    st.builds(lambda i, rd, v, look: ((rd, i), ("set", i, v), ("del", i), look),
+              st.sampled_from(_INDEXES), st.sampled_from(["get", "getd"]), value, _lookup(k_gone0)),
+    # read it, delete it, look it up (the contrast)
+    st.builds(lambda i, rd, look: ((rd, i), ("del", i), look),
+              st.sampled_from(_INDEXES), st.sampled_from(["get", "getd"]), _lookup(k_gone0)),
+    # delete, look up, bring it back, delete again, look up
+    st.builds(lambda k, l1, v, l2: (("del", k), l1, ("set", ["x", 0, "s"], v), ("del", -1), l2),
+              k_live, _lookup(k_gone0), value, _lookup(k_gone0)),
+)
+sparse_chunk = weighted((6, sparse_op.map(lambda o: (o,))), (3, deb822_op.map(lambda o: (o,))),
+                        (3, sparse_motif), (1, motif))
+watch_sparse = st.sampled_from(["blind", "keys", "blind"])
+
+
+def gen_sparse(max_ops):
+    return st.builds(lambda init, watch, chunks: {"kind": "deb822", "init": init, "watch": watch,
+                                                  "ops": _flatten(chunks, max_ops)},
+                     init_st, watch_sparse, _sized(sparse_chunk, max_ops))
+
+
 oset_op = st.one_of(
     st.tuples(st.just("add"), k_lit), st.tuples(st.just("add"), k_lit), st.tuples(st.just("add"), k_any),
     st.tuples(st.just("remove"), k_any), st.tuples(st.just("remove"), k_live),
@@ -1316,14 +1507,14 @@ def make_machine(rec, excluded, last_failure):
             last_failure["v"], last_failure["case"] = v, _jsonable(self.case)
             raise v
 
-        @initialize(init=init_st)
-        def start(self, init):
-            self.case = {"kind": "deb822", "init": _jsonable(init), "ops": []}
+        @initialize(init=init_st, watch=st.sampled_from(["all", "all", "blind", "keys"]))
+        def start(self, init, watch):
+            self.case = {"kind": "deb822", "init": _jsonable(init), "watch": watch, "ops": []}
             if rec.budget_exhausted or rec.expired():
                 self.dead = True
                 return
             try:
-                self.session = Deb822Session(self.case["init"])
+                self.session = Deb822Session(self.case["init"], watch)
             except Violation as v:
                 self.failed(v)
             except Exception as e:    # pylint: disable=broad-except
@@ -1352,6 +1543,11 @@ def make_machine(rec, excluded, last_failure):
         def literal_key_op(self, name, k):
             self.run([name, k])
 
+        @precondition(lambda self: self.session is not None and not self.dead and self.session.gone)
+        @rule(op=_lookup(k_gone))
+        def lookup_deleted(self, op):
+            self.run(_jsonable(op))
+
         @precondition(lambda self: self.live() >= 1)
         @rule(name=st.sampled_from(["first", "last"]), k=k_live)
         def move_to_end(self, name, k):
@@ -1379,7 +1575,9 @@ def make_machine(rec, excluded, last_failure):
         @invariant()
         def agrees_with_model(self):
             # model agreement as a Hypothesis invariant: runs after @initialize and after every
-            # rule (the interpreter itself has already compared once inside the step)
+            # rule (the interpreter itself has already compared once inside the step), within what
+            # the observation policy of the run allows; the full observation at the end of a
+            # sparse run is made by the replay in teardown
             if self.session is not None and not self.dead:
                 try:
                     self.session.observe("invariant")
@@ -1446,13 +1644,19 @@ def sources(tier):
         return [Enum("deb822-histories<=3", enum_deb822(3), "deb822 op alphabet, 1..3 steps"),
                 Enum("oset-histories<=3", enum_oset(3), "OrderedSet op alphabet, 1..3 steps, ci and plain"),
                 Enum("llist-histories<=4", enum_llist(4), "LinkedList op alphabet, 1..4 steps"),
+                Enum("deb822-sparse-histories<=3", enum_sparse(3),
+                     "delete/lookup op alphabet under the observation policies keys and blind, 14 start states"),
                 Hyp("deb822-histories", gen_deb822(30), 700, shards=8),
+                Hyp("deb822-sparse-histories", gen_sparse(30), 700, shards=3),
                 Hyp("oset-histories", gen_oset(30), 700, shards=3),
                 Hyp("llist-histories", gen_llist(30), 700, shards=3)]
     return [Enum("deb822-histories<=4", enum_deb822(4), "deb822 op alphabet, 1..4 steps"),
             Enum("oset-histories<=4", enum_oset(4), "OrderedSet op alphabet, 1..4 steps, ci and plain"),
             Enum("llist-histories<=5", enum_llist(5), "LinkedList op alphabet, 1..5 steps"),
+            Enum("deb822-sparse-histories<=4", enum_sparse(4),
+                 "delete/lookup op alphabet under the observation policies keys and blind, 14 start states"),
             Hyp("deb822-histories", gen_deb822(40), 10000, shards=16),
+            Hyp("deb822-sparse-histories", gen_sparse(40), 10000, shards=6),
             Hyp("oset-histories", gen_oset(40), 6000, shards=4),
             Hyp("llist-histories", gen_llist(40), 6000, shards=4),
             Custom("deb822-machine", machine_phase(250, 50), shards=8)]
